@@ -43,10 +43,10 @@ PROPS = {
     "C07": dict(
         level="other",
         explanation="Inductive step of RegisterNode and RegisterPipeline over symbolic policies (allow/deny/default/arbitrary invalid strings): fails iff the existing entry says DenyOverwrite (or the request is invalid) and then changes nothing; otherwise the stored policy is the requested one; linked pipelines and same-id pipelines of other event types are untouched.",
-        jobs=[dict(harness=BROKER_H, entries=r"^H_C07_|^H_C05_RegisterPipeline$", params=dict(quick=dict(K=2, L=2), thorough=dict(K=3, L=3)),
+        jobs=[dict(harness=BROKER_H, entries=r"^H_C07_RegisterNode$|^H_C07_pipeline_other_type$|^H_C05_RegisterPipeline$", params=dict(quick=dict(K=2, L=2), thorough=dict(K=3, L=3)),
                    shards=dict(quick=1, thorough=16, H_C05_RegisterPipeline=16, H_C07_pipeline_other_type=8)),
-              dict(harness=BROKER_H, entries=r"^H_C07_send_vs_overwrite$", params=dict(quick={}, thorough={}), shards=dict(quick=4, thorough=8), maxswitches=dict(quick=3, thorough=5), instrument_locks=True)],
-        must_reach=["C07.node.ok", "C07.node.fail", "C07.othertype.end", "C05.register.ok", "C05.register.fail", "C07.overwrite-vs-send.end"],
+              dict(harness=BROKER_H, entries=r"^H_C07_send_vs_overwrite$|^H_C07_policies_interleaved$", params=dict(quick={}, thorough={}), shards=dict(quick=4, thorough=8), maxswitches=dict(quick=3, thorough=5), instrument_locks=True)],
+        must_reach=["C07.node.ok", "C07.node.fail", "C07.othertype.end", "C05.register.ok", "C05.register.fail", "C07.overwrite-vs-send.end", "C07.policies.end"],
         bounds=dict(quick="K=2, L=2; policy strings arbitrary", thorough="K=3, L=3"),
         trusted_base=COMMON_TRUST,
     ),
@@ -64,8 +64,10 @@ PROPS = {
         jobs=[dict(harness=BROKER_H, entries=r"^H_C01_Send$", params=dict(quick=dict(K=2, L=2), thorough=dict(K=3, L=3)), shards=dict(quick=1, thorough=4),
                    overrides=["(*github.com/hashicorp/eventlogger.graph).process=verifStubProcess"]),
               dict(harness=BROKER_H, entries=r"^H_C01_linkNodes$", params=dict(quick=dict(LL=5), thorough=dict(LL=5))),
+              # which node objects a registered pipeline traverses: the list RegisterPipeline builds from any registry (inductive step)
+              dict(harness=BROKER_H, entries=r"^H_C05_RegisterPipeline$", params=dict(quick=dict(K=2, L=2), thorough=dict(K=3, L=3)), shards=dict(quick=16, thorough=16)),
               dict(harness=BROKER_H, entries=r"^H_C01_process_seq$", params=dict(quick=dict(P=2, N=2), thorough=dict(P=3, N=3)), shards=dict(quick=4, thorough=16))],
-        must_reach=["C01.send.known", "C01.send.unknown", "C01.link.ok", "C01.process.end"],
+        must_reach=["C01.send.known", "C01.send.unknown", "C01.link.ok", "C01.process.end", "C05.register.ok"],
         bounds=dict(quick="P<=2 pipelines x 2 nodes; list length<=5", thorough="P<=3 x 2..3 nodes"),
         trusted_base=COMMON_TRUST,
     ),
@@ -83,9 +85,9 @@ PROPS = {
 PROPS["C18"] = dict(
     level="other",
     explanation="cloudevents FormatterFilter.Process / validate / sign / Rotate executed symbolically over all configurations (source nil/empty/set, schema nil/empty/set, arbitrary format string, signer absent/succeeding/failing, <=T listed types, predicate absent/true/false/error) and payload kinds (plain, ID, Data, both); json.Encoder.Encode, base64 and url.URL.String are uninterpreted/deterministic functions, so 'serialized is the exact unsigned document' and 'signer saw exactly those bytes' are term equalities decided by z3.",
-    jobs=[dict(pkg="./formatter_filters/cloudevents", harness=["cloudevents/cloudevents.go"], entries=r"^H_C18_", params=dict(quick=dict(T=1), thorough=dict(T=3)), shards=dict(quick=8, thorough=16))],
-    must_reach=["C18.invalid", "C18.emptyid", "C18.ok-signed", "C18.ok-unsigned", "C18.error", "C18.rotate", "C18.two.end", "C18.listing.end"],
-    bounds=dict(quick="SignEventTypes <= 1", thorough="SignEventTypes <= 3"),
+    jobs=[dict(pkg="./formatter_filters/cloudevents", harness=["cloudevents/cloudevents.go"], entries=r"^H_C18_", params=dict(quick=dict(T=1, STEPS=3), thorough=dict(T=3, STEPS=5)), shards=dict(quick=8, thorough=16))],
+    must_reach=["C18.invalid", "C18.emptyid", "C18.ok-signed", "C18.ok-unsigned", "C18.error", "C18.rotate", "C18.two.end", "C18.listing.end", "C18.history.end"],
+    bounds=dict(quick="SignEventTypes <= 1; histories of <= 3 steps over {event of listed type 1/2, unlisted type, Rotate to signer A/B}", thorough="SignEventTypes <= 3; histories of <= 5 steps"),
     assumptions=["event type non-empty (only such events come from Broker.Send)", "JSON text validity is trusted encoding/json", "url.URL.String modelled for path-only URLs as the path"],
     trusted_base=COMMON_TRUST,
 )
@@ -135,7 +137,7 @@ EO_NOTE = "Schedules: thread automata of graph.process (collector), its range go
 PROPS["C03"] = dict(
     level="model_checking",
     explanation=EO_NOTE + "Queries (each must be unsat): D deadlock or goroutine leak once all nodes returned; R collector not returned although cancelled (nodes may hang forever); T not returned although never cancelled; U collector loop bound; W send on closed channel / double close / negative WaitGroup / thread panic. Reachability twins must be sat.",
-    jobs=[dict(EO_JOB, eo_queries=["twin", "D", "R", "T", "U", "W"]),
+    jobs=[dict(EO_JOB, eo_queries=["twin", "D", "R", "T", "U", "W", "C"]),
           dict(harness=BROKER_H, entries=r"^H_C12_reentry_vs_writer$", params=dict(quick={}, thorough={}), shards=dict(quick=4, thorough=8), maxswitches=dict(quick=3, thorough=5), instrument_locks=True)],
     must_reach=[],
     bounds=dict(quick="all 15 ordered shapes with P<=3 pipelines x N_i in {2,3} nodes; all schedules, cancel instants (never/anywhere), outcomes, node delays", thorough="P<=4 x N_i in {2,3,5} (121 ordered shapes) + 4x4 + 5x3"),
@@ -167,14 +169,14 @@ FS_NOTE = "FileSink.Process / Reopen / reopen / open / rotate / pruneFiles / fil
 PROPS["C08"] = dict(
     level="other",
     explanation=FS_NOTE + "Assertions: an acknowledged event is appended exactly once and contiguously to the file the sink holds; existing files keep their content; only the oldest rotated files are removed and only under a retention limit; foreign files untouched; Reopen after an external rename keeps the renamed inode intact and starts a fresh file.",
-    jobs=[dict(harness=BROKER_H, entries=r"^H_C08_", params=dict(quick=dict(R=1, FAULTS=0), thorough=dict(R=3, FAULTS=0)), shards=dict(quick=16, thorough=16))],
+    jobs=[dict(harness=BROKER_H, entries=r"^H_C08_", params=dict(quick=dict(R=1, FAULTS=0), thorough=dict(R=3, FAULTS=0)), shards=dict(quick=16, thorough=16), instrument_clock=True)],
     must_reach=["C08.process.norotate", "C08.process.rotated", "C08.process.opened", "C08.reopen.renamed", "C08.reopen.plain"],
     bounds=dict(quick="<=1 rotated file + active + 2 foreign files; one operation from an arbitrary state (inductive step)", thorough="<=3 rotated files"),
     assumptions=["A-write: one write(2) on an O_APPEND descriptor is all-or-nothing, also under SIGKILL (partial writes and kernel crash behaviour are outside the claim)", "A-19digits: timestamps print with the same number of digits", "the clock is non-decreasing and strictly increasing between two file creations", "concurrent writers: every access happens with FileSink.l held (lockset in C19)"],
     trusted_base=COMMON_TRUST + ["ghost file system contracts (engine/symex/fsmodel.go)"],
 )
 PROPS["C15"] = dict(PROPS["C08"], explanation=FS_NOTE + "Assertions: rotation happens when BytesWritten>=MaxBytes>0 or the file is certainly older than MaxDuration>0 and never when certainly below both; counters restart; active name plain with TimestampOnlyOnRotate; at most MaxFiles rotated files right after a rotation (oldest removed first); configured mode applied.")
-PROPS["C13"]["jobs"].append(dict(harness=BROKER_H, entries=r"^H_C08_Process$|^H_C13_file_specials$|^H_C13_file_partial_write$", params=dict(quick=dict(R=0, FAULTS=1), thorough=dict(R=1, FAULTS=1)), shards=dict(quick=8, thorough=16)))
+PROPS["C13"]["jobs"].append(dict(harness=BROKER_H, entries=r"^H_C08_Process$|^H_C13_file_specials$|^H_C13_file_partial_write$", params=dict(quick=dict(R=0, FAULTS=1), thorough=dict(R=1, FAULTS=1)), shards=dict(quick=8, thorough=16), instrument_clock=True))
 PROPS["C13"]["must_reach"] += ["C13.file.specials", "C13.file.noformat", "C13.file.partial.ok"]
 ENC_H = ["encrypt/common.go", "encrypt/helpers_sym.go", "encrypt/helpers_native.go", "encrypt/c16.go"]
 ENC_DIR = "/repo/filters/encrypt"
